@@ -184,12 +184,19 @@ Example signed_exchange_roundtrip_inst :
 Proof.
   destruct (write (set_sig p1 phdr)) as [bs| | |] eqn:Ew; try (vm_compute in Ew; discriminate Ew).
   exists bs.
-  destruct (signed_exchange_verifies_after_roundtrip polyH toy_x509 poly_sig_ok toy_status toy_fetch
-              polyH_len polyH_wf
-              p0 p1 16 toy_cert toy_cert_url toy_validity toy_date toy_expires pm psg phdr toy_chain
-              {| ac_cert := toy_cert; ac_ocsp := Some [9; 9]; ac_sct := None |} [] 7 bs)
-    as (e' & Erd & Hall); try exact Ew; try (vm_compute; reflexivity).
-  { apply wfbb_iff. vm_compute. reflexivity. }
+  assert (Hx : exists e', read bs = Ok e' /\
+            forall tsec tnsec, time_ok tsec tnsec ->
+              (toy_date * 1000000000 <= tsec * 1000000000 + tnsec <= toy_expires * 1000000000)%Z ->
+              verify polyH toy_x509 poly_sig_ok toy_status toy_fetch e' tsec tnsec = Valid (e_payload p0) /\
+              verify polyH toy_x509 poly_sig_ok toy_status toy_fetch e' tsec tnsec
+              = verify polyH toy_x509 poly_sig_ok toy_status toy_fetch (set_sig p1 phdr) tsec tnsec).
+  { apply (signed_exchange_verifies_after_roundtrip polyH toy_x509 poly_sig_ok toy_status toy_fetch
+             polyH_len polyH_wf
+             p0 p1 16 toy_cert toy_cert_url toy_validity toy_date toy_expires pm psg phdr toy_chain
+             {| ac_cert := toy_cert; ac_ocsp := Some [9; 9]; ac_sct := None |} [] 7 bs);
+      try exact Ew; try (vm_compute; reflexivity).
+    apply wfbb_iff. vm_compute. reflexivity. }
+  destruct Hx as (e' & Erd & Hall).
   exists e'. split; [reflexivity|]. split; [exact Erd|].
   intros tsec tnsec Ht Hw. destruct (Hall tsec tnsec Ht Hw) as [Hv _]. exact Hv.
 Qed.
